@@ -169,7 +169,13 @@ impl<L: Link, S: Sleep> Sender<'_, L, S> {
             self.link.receive(self.rx)?;
             tracing::trace!("recv: {}", self.rx.iter().join(", "));
 
-            if check_if_msg_is_processed(self.tx, self.rx).all(std::convert::identity) {
+            // disabled devices receive nothing: their (possibly stale) acknowledgements are not waited for
+            if self
+                .geometry
+                .iter()
+                .zip(check_if_msg_is_processed(self.tx, self.rx))
+                .all(|(dev, processed)| !dev.enable || processed)
+            {
                 return Ok(());
             }
             if start.elapsed() > timeout {
@@ -178,9 +184,11 @@ impl<L: Link, S: Sleep> Sender<'_, L, S> {
             receive_timing += self.option.receive_interval;
             self.option.sleeper.sleep_until(receive_timing);
         }
-        self.rx
+        self.geometry
             .iter()
-            .try_fold((), |_, r| {
+            .zip(self.rx.iter())
+            .filter(|(dev, _)| dev.enable)
+            .try_fold((), |_, (_, r)| {
                 autd3_driver::firmware::cpu::check_firmware_err(r)
             })
             .and_then(|e| {
